@@ -192,7 +192,8 @@ def freshWorld : World := { r := ReqSt.init srvEnv, h2r := ReqSt.init srvEnv }
 /-- the parsed-request line of h_reset.c (print_parsed) -/
 def parsedStr (s : ReqSt) : String :=
   if s.httpStatus ≠ 0 then
-    s!"err {s.httpStatus}" ++ (if s.keepAlive ≠ 0 || s.reqbodyLength ≠ 0 then " NOT-CLOSED" else "")
+    s!"err {s.httpStatus}" ++ (if s.keepAlive ≠ 0 || s.reqbodyLength ≠ 0 then " NOT-CLOSED" else "") ++
+      s!" m={s.method} v={s.version}"
   else
     "ok v" ++ toString s.version ++ " ka" ++ (if s.keepAlive ≠ 0 then "1" else "0") ++
     " m=" ++ toHex (methodName s.method) ++ " t=" ++ toHex s.target.bytes ++ " p=" ++ toHex s.uriPath.bytes ++
@@ -209,13 +210,13 @@ def parseProbe (h2 : Bool) (opts : Nat) (s : ReqSt) (probe : String) : Option St
       match parseIntoH2 { s with version := 2 } fs true with
       | .done r => parsedStr r
       | .skipV6 => "skip-v6"
-      | _ => "err 400"
+      | _ => s!"err 400 m={s.method} v=2"
   else
     (ofHex probe).map fun b =>
       match parseIntoH1 s b with
       | .done r => parsedStr r
       | .skipV6 => "skip-v6"
-      | _ => "err 400"
+      | _ => s!"err 400 m={s.method} v={s.version}"     -- not a complete head: the harness records 400
 
 
 /-! ### connection-level cases (end-to-end stream) -/
@@ -224,8 +225,9 @@ def hexParts (t : String) : Option (List Bytes) := (t.splitOn ":").mapM ofHex
 
 /-- site / configuration tokens:
       n=<path>:<f|d>:<ctype>:<content>:<etag>   idx=<name>   deny=<suffix>   excl=<ext>
-      sc=<u|h|q>:<arg1>:<arg2>:<extra k:v list or *>:<range 0|1|*>:<maxka or *>:<docroot or *>
-      root=<docroot>  maxka=<n>  gextra=<k:v list>
+      sc=<u|h|q|m>;<arg1>;<arg2>;<extra k:v list or *>;<range 0|1|*>;<maxka or *>;<docroot or *>[;<http11 0|1|*>]
+      root=<docroot>  maxka=<n>  gextra=<k:v list>  sink=<ext>  sinkbody=<bytes>  sname=<server.name>
+      maxreq=<server.max-request-size, KB>
     all string parts hex-encoded -/
 structure SiteCfg where
   site : Site := {}
@@ -252,12 +254,22 @@ def siteTok (c : SiteCfg) (tok : String) : Option SiteCfg :=
     | "root" => (ofHex v).map fun b => { c with env := { c.env with defaults := { c.env.defaults with docRoot := b } } }
     | "gextra" => (kvList v).map fun l => { c with env := { c.env with defaults := { c.env.defaults with extra := l } } }
     | "maxka" => v.toNat?.map fun n => { c with env := { c.env with defaults := { c.env.defaults with maxKeepAliveRequests := n } } }
+    | "sink" => (ofHex v).map fun b => { c with site := { c.site with sinkExt := c.site.sinkExt ++ [b] } }
+    | "sinkbody" => (ofHex v).map fun b => { c with site := { c.site with sinkBody := b } }
+    | "sname" => (ofHex v).map fun b => { c with env := { c.env with defaults := { c.env.defaults with serverName := some b } } }
+    | "maxreq" => v.toNat?.map fun n => { c with env := { c.env with defaults := { c.env.defaults with maxRequestSize := n } } }
     | "sc" =>
-      match v.splitOn ";" with
+      let parts := v.splitOn ";"
+      let (parts, h11) : List String × Option Bool :=
+        match parts with
+        | [a, b, c', d, e', f, g, h] => ([a, b, c', d, e', f, g], if h = "*" then none else some (h = "1"))
+        | _ => (parts, none)
+      match parts with
       | [kind, a1, a2, extra, rng, mka, root] =>
         match ofHex a1, ofHex a2 with
         | some b1, some b2 =>
-          let cond : Cond := if kind = "u" then .urlPrefix b1 else if kind = "h" then .hostEq b1 else .headerEq b1 b2
+          let cond : Cond := if kind = "u" then .urlPrefix b1 else if kind = "h" then .hostEq b1
+                             else if kind = "m" then .methodIs b1 else .headerEq b1 b2
           let ex : Option (Option (List (Bytes × Bytes))) :=
             if extra = "*" then some none else (kvList extra).map some
           let rt : Option (Option Bytes) := if root = "*" then some none else (ofHex root).map some
@@ -266,7 +278,7 @@ def siteTok (c : SiteCfg) (tok : String) : Option SiteCfg :=
             let sc : Scope := { cond := cond, extra := ex,
                                 rangeRequests := if rng = "*" then none else some (rng = "1"),
                                 maxKeepAliveRequests := if mka = "*" then none else mka.toNat?,
-                                docRoot := rt }
+                                docRoot := rt, allowHttp11 := h11 }
             some { c with site := { c.site with scopes := c.site.scopes ++ [sc] } }
           | _, _ => none
         | _, _ => none
